@@ -209,14 +209,7 @@ pub fn k_c19_batch_malformed_b() {
 }
 
 // (the instance with `into_openings` on a malformed one-index batch did not finish in 30 minutes: not claimed)
-//# harness: fn=BatchMerkleProof::get_root, verify_batch (two indexes, two leaves); label=bounded(depth 2; shape (nodes [1, 1], 2 indexes, 2 leaves); index values and digests symbolic); tier=thorough; uses=malformed_batch,nodes_of,digests,indexes_of; timeout=1800
-#[cfg_attr(kani, kani::proof)]
-#[cfg_attr(kani, kani::unwind(12))]
-#[cfg_attr(kani, kani::stub(alloc::fmt::format, vs::fake_format))]
-pub fn k_c19_batch_malformed_c2() {
-    malformed_batch(&[1, 1], 2, 2, 2, false);
-    vreach!("C19.malformed_c2.reach");
-}
+// (the two-index shape (nodes [1, 1], 2 indexes, 2 leaves) needs about 30 GB and 30 minutes of solver time: not claimed)
 
 // ------------------------------------------------------------------------------------------------
 // C18: trees, openings and batch proofs are mutually consistent
